@@ -183,7 +183,7 @@ class C11(Check):
     level = 'fault_enumeration'
     design_ref = 'DESIGN.md 3.5'
     runs = {'quick': 1500, 'thorough': 8000}
-    shrink_lists = (('ops',),)
+    shrink_lists = (('ops',), ('shipped', 'seq'))
     rule = ('histories (<= 24 ops quick, <= 64 thorough) over a pool of <= 4 applications and <= 8 Route objects: construct '
             'application (possibly with a failing k-th entry), add route / tuple / SubApplication / (prefix, app) at an index, '
             'add an entry that FAILS (15 kinds incl. dependency cycles with the parent, application-defined route types whose bind raises any exception type, an embedded application whose k-th route cannot be re-bound), bind one Route '
@@ -354,7 +354,7 @@ class C11(Check):
         of each is embedded in two hosts that differ in their routes and in how they render errors; requests go to the
         hosts in a seeded order.  Whatever a host answers is about THAT host."""
         rng = Streams(base_seed)['shipped']
-        paths = ['/static/nope.txt', '/static/nope.txt', '/static/common.css', '/_meta/json/', '/_meta/json/', '/_meta/', '/nope', '/static/', '/own']
+        paths = ['/static/nope.txt', '/static/nope.txt', '/static/common.css', '/_meta/json/', '/_meta/json/', '/_meta/', '/nope', '/static/', '/own', '/denied', '/denied', '/gone']
         for k in range(40 if tier == 'quick' else 400):
             n1 = rng.randint(0, 3)
             n2 = n1 if rng.random() < 0.6 else rng.randint(0, 3)       # (often the same NUMBER of routes, never the same routes)
@@ -388,13 +388,21 @@ class C11(Check):
             stub.set_faults({})
             static = StaticApplication(cmeta._ASSET_PATH)
             meta = MetaApplication()
+            # ONE Route object bound into both hosts; its endpoint answers with an error object the application made once
+            # (`DENIED = Forbidden(...)` at module level), returned or raised
+            from clastic.errors import Forbidden, Gone
+            denied, gone = Forbidden(detail='members only'), Gone(detail='moved away')
+
+            def ep_gone():
+                raise gone
+            shared_routes = [Route('/denied', lambda: denied), Route('/gone', ep_gone)]
             hosts, own = {}, {}
             for i, tag in enumerate(['h1', 'h2']):
                 routes = [('/own', (lambda tag=tag: Response('own:' + tag)))]
                 routes += [('/%s/r%d/<x>' % (tag, j), (lambda x, tag=tag: Response(tag))) for j in range(sp['extra_routes'][i])]
                 s_app = static if sp['static_shared'] or i == 0 else StaticApplication(cmeta._ASSET_PATH)
                 m_app = meta if sp['meta_shared'] or i == 0 else MetaApplication()
-                hosts[tag] = Application(routes + [('/static/', s_app), ('/_meta/', m_app)], error_handler=handler(tag))
+                hosts[tag] = Application(routes + [('/static/', s_app), ('/_meta/', m_app)] + shared_routes, error_handler=handler(tag))
                 own[tag] = [r.pattern for r in hosts[tag].routes]
             # the embedded applications are also served on their own (each still is an application in its own right)
             for step, (tag, path) in enumerate(sp['seq']):
@@ -418,7 +426,7 @@ class C11(Check):
                 if ex.escaped is not None:
                     res.violate(K + 'exception-escaped:%s' % type(ex.escaped).__name__, ctx + ' -> %r' % (ex.escaped,), step)
                     break
-                want = {'/static/nope.txt': 404, '/nope': 404, '/static/common.css': 200, '/_meta/': 200, '/_meta/json/': 200, '/own': 200}.get(path)
+                want = {'/static/nope.txt': 404, '/nope': 404, '/static/common.css': 200, '/_meta/': 200, '/_meta/json/': 200, '/own': 200, '/denied': 403, '/gone': 410}.get(path)
                 if want is not None and ex.code != want:
                     res.violate(K + 'status-%s-not-%s' % (ex.code, want), ctx + ' -> %s' % ex.status, step)
                     break
